@@ -22,10 +22,36 @@ func runC20(r *Run, p *Prog) {
 	ro := DiscoverRoles(p)
 	T := ro.T
 	// the activation function by role
-	var act *ssa.Function
+	// (in its inlined view - inline.go - it both reads LISTEN_PID and calls net.FileListener, and it is the innermost
+	// such function; it is analysed in that view, so helpers it delegates to are part of it)
+	var act, actBuilt *ssa.Function
+	var cands []*ssa.Function
 	for _, f := range p.FuncsOf(pkgVarlink) {
-		if len(callsNamed(f, false, "net.FileListener")) > 0 {
-			act = f
+		if f.Parent() != nil || len(f.Blocks) == 0 {
+			continue
+		}
+		v := p.Inlined(f, nil)
+		readsPid := false
+		for _, cs := range callsNamed(v, false, "os.Getenv", "os.LookupEnv") {
+			if len(cs.Common.Args) == 1 && T.T(cs.Common.Args[0]) == `const:"LISTEN_PID"` {
+				readsPid = true
+			}
+		}
+		if readsPid && len(callsNamed(v, false, "net.FileListener")) > 0 {
+			cands = append(cands, f)
+		}
+	}
+	for _, f := range cands {
+		inner := true
+		for _, g := range cands {
+			if g != f && ro.CG.Reach([]*ssa.Function{f}, false)[g] {
+				inner = false
+			}
+		}
+		if inner {
+			actBuilt = f
+			act = p.Inlined(f, nil)
+			ro.CG.AddView(act)
 		}
 	}
 	if act == nil {
@@ -207,7 +233,7 @@ func runC20(r *Run, p *Prog) {
 			"with LISTEN_PID naming this process and exactly one descriptor passed, the function can still fall back to the address for a reason other than FileListener failing (e.g. because of LISTEN_FDNAMES): the single descriptor 3 must be served", witnessPos(p, w)...)
 	})
 	// ---- V3
-	r.Guard("V3", func() { checkSetupV3(r, p, ro, act) })
+	r.Guard("V3", func() { checkSetupV3(r, p, ro, actBuilt) })
 }
 
 func checkSetupV3(r *Run, p *Prog, ro *Roles, act *ssa.Function) {
